@@ -9,6 +9,7 @@ node list from any start node) is NOT decided here (see NOT_DECIDED)."""
 from props.base import Job, T1, T2, T6
 from props import tree_jobs as TJ
 from props import wrapper_jobs as WJ
+from props import history_jobs as HJ
 from pyvc.contract import verify
 from pyvc.interp import Ctx, PyExc
 from pyvc import interp as I
@@ -18,8 +19,9 @@ LEVEL = 'proof'
 TRUSTED = ['pyvc interpreter + heap model (T6)', 'z3 5.1.0 / cvc5 1.0.3 / z3 4.8.12']
 ASSUMPTIONS = [T1, T2, T6]
 NOT_DECIDED = ['decomposition determinism (the same query is answered by the same node list after arbitrary refinement, from any start '
-               'node): needs the laminar-family induction over pairs of nodes; the local ingredients (refines frame, laminar invariants '
-               'LD/NB, contiguity) are proved, the closing induction is not mechanised and no bounded stand-in is built yet']
+               'node) is not proved: it needs the laminar-family induction over pairs of nodes. The local ingredients (refines frame, laminar '
+               'invariants LD/NB, contiguity) are proved; the closing step is served by a BOUNDED stand-in (all histories of 2 symbolic queries, '
+               '3 in the thorough tier, every ordering of the end points, three cache kinds), reported under bounded_stand_ins and not counted as proved']
 EXPLANATION = __doc__
 BI = 'torchsde._brownian.brownian_interval'
 
@@ -49,7 +51,8 @@ def job_emptydict(E, rep, tier):
 def jobs(tier):
     P = 'C05'
     return [TJ.make(P, 'split_exact', False), TJ.make(P, 'split', False), TJ.make(P, 'loc_inner', False), TJ.make(P, 'loc', False),
-            TJ.job_split_algebra(P, ()), Job('lru', job_lru), Job('emptydict', job_emptydict), WJ.job_wrappers(P)]
+            TJ.job_split_algebra(P, ()), Job('lru', job_lru), Job('emptydict', job_emptydict), WJ.job_wrappers(P)] + \
+        HJ.symbolic_history_jobs(P, 2) + (HJ.symbolic_history_jobs(P, 3) if tier == 'thorough' else [])
 
 
 def canaries(tier):
